@@ -115,7 +115,7 @@ class Store:
         return m
 
     # -- resolving message sets -------------------------------------------------------------
-    def resolve(self, s: Sess, elems, uid: bool) -> list[Msg]:
+    def resolve(self, s: Sess, elems, uid: bool, sync_first: bool = False) -> list[Msg]:
         """Messages a set denotes for session s.  Non-UID sets are positions in the *server*
         list, which the property requires to coincide with the session's view whenever a
         non-UID command is accepted."""
@@ -129,6 +129,10 @@ class Store:
         # does not announce them, its FETCH/STORE responses name positions outside the replayed
         # view, which the stream monitor reports.)
         view = s.view + [u for u in m.uids() if u not in s.view and u > s.max_seen_uid]
+        if sync_first:
+            # COPY/MOVE may be sent EXPUNGE responses: the server flushes them first and the
+            # numbers then denote positions in the renumbered view
+            view = [u for u in view if u in m.uids()]
         try:
             pos = S.denote_seq(elems, len(view))
         except S.Invalid:
@@ -235,7 +239,7 @@ class Store:
         src = self.selected_mbox(s)
         if move and s.readonly:
             raise Refused(("NO",), "read-only")
-        tgt = self.resolve(s, elems, uid)
+        tgt = self.resolve(s, elems, uid, sync_first=True)
         d = self.mb(dst)
         if d is None or d.noselect:
             raise Refused(("NO",), "TRYCREATE")
